@@ -2,7 +2,7 @@
    Owning types modelled: static_vector (non-trivial storage) and inplace_vector, for element types
    with (fl = true) and without (fl = false) move operations, every capacity (0 included: every
    insertion stops at its precondition), every history of the operations of C03.Model.op on two objects. *)
-From Tetl Require Import Lib.Base C03.Trace C03.Model C03.Spec C03.ProofsTrace C03.ProofsRun C03.ProofsHist C03.ProofsVecSelf C03.ProofsVecDomain C03.ProofsMeetsSpec C03.ProofsFwd.
+From Tetl Require Import Lib.Base C03.Trace C03.Model C03.Spec C03.ProofsTrace C03.ProofsRun C03.ProofsHist C03.ProofsVecSelf C03.ProofsVecDomain C03.ProofsVecDomain2 C03.ProofsMeetsSpec C03.ProofsFwd.
 
 (** * the automaton *)
 (* a well-formed trace that leaves nothing alive: the history of EVERY location is
@@ -78,6 +78,22 @@ Theorem C03_vec_domain : forall (fl : bool) (cap : nat) (iv : bool) (ops : list 
   history_completed fl cap iv ops = true.
 Proof. exact vec_domain. Qed.
 Print Assumptions C03_vec_domain.
+
+(* the operations whose resulting size depends on the element VALUES (outside C03_vec_domain), per step, from any
+   state within the capacity and for any element values: erase_if, erase by value and the static_set insert (both
+   forms) / emplace / erase by key never stop - the specification gives them no precondition; flat_set insert (both
+   forms) / emplace stop only when the set is full - the vector's capacity precondition *)
+Theorem C03_vec_value_dependent_ops : forall (fl : bool) (cap : nat) (s : nat * nat) (m : vmem) (o : op),
+  within2 cap s ->
+  (never_stops_op o = true -> exists s', snd (step_sv fl cap s m o) = Done s' /\ within2 cap s') /\
+  (forall t, flat_insert_target o = Some t ->
+     (exists s', snd (step_sv fl cap s m o) = Done s' /\ within2 cap s') \/
+     (snd (step_sv fl cap s m o) = Stop /\ sel t s = cap)).
+Proof.
+  intros fl cap s m o Hw. split; [apply value_ops_never_stop; exact Hw|].
+  intros t Ht. apply flat_insert_stops_only_when_full; assumption.
+Qed.
+Print Assumptions C03_vec_value_dependent_ops.
 
 (* model = specification: inside the specification's domain the verdict and the self-operation
    identities the model prints are the ones Spec.spec_verdict expects (size-determined operations) *)
